@@ -89,6 +89,18 @@ Proof.
 Qed.
 Print Assumptions C18_literals_read_back.
 
+(* the formatter is injective on the domain: two different expressions never print alike *)
+Theorem C18_format_injective : forall e1 e2,
+  wf_expr e1 = true -> wf_expr e2 = true -> fmt_tokens e1 = fmt_tokens e2 -> e1 = e2.
+Proof. exact fmt_tokens_injective. Qed.
+Print Assumptions C18_format_injective.
+
+(* the lexer model's linear-time string rule is exactly the backtracking search of the regular
+   expression QUOTE ( BACKSLASH any-but-newline | any-but-QUOTE )* QUOTE on every input *)
+Theorem C18_string_rule_is_backtracking : forall s, str_end s = str_end_bt s.
+Proof. exact str_end_is_backtracking. Qed.
+Print Assumptions C18_string_rule_is_backtracking.
+
 (* micheline_to_michelson(wrap=True) puts one pair of parentheses around a text that starts with
    Pair/Left/Right/Some; michelson_to_micheline strips exactly that pair *)
 Theorem C18_wrap_is_stripped : forall s,
